@@ -22,6 +22,7 @@ func checkC03(c *Check) {
 	checkPanics(c)
 	checkAssertions(c)
 	checkLoopProgress(c)
+	checkVariableLoops(c)
 	checkRecursion(c)
 	checkMayNil(c)
 }
